@@ -34,6 +34,26 @@ PROPS = {
         "design_ref": "DESIGN.md section 7, C19",
         "assumptions": ["scalar operations are exact commutative-ring operations", "ColorComponent::full() of the abstract component type is an arbitrary constant", "integer components: Rust fixed-width semantics of MachineInt.v (overflow panics with checks, wraps without)"],
     },
+    "C20": {
+        "claimed": True,
+        "technique": "Coq proof (chain-tree lemmas by induction + computation) over programs translated from the compiled generic code by symbolic execution with a fully abstract element type; auxiliary cargo feature-matrix build",
+        "level_text": "976 entry points: for each of the 13 vector types the 8 checked_*, 4 wrapping_*, 3 saturating_*, 3 overflowing_*, Euclidean and Inv lifts, Zero/One/is_zero, abs_diff_eq/relative_eq/ulps_eq, as_, numcast and the six az casts; for the 6 matrix types Zero/One/is_zero, the three approx lifts, as_, numcast; quaternion approx; as_ on segments, boxes and rectangles. The element type is an abstract scalar whose lifted operations are uninterpreted function symbols and whose boolean outcomes (is-Some, overflowed, approximately-equal) are arbitrary predicates; Coq proves for ALL element values and ALL interpretations that each lift returns the per-element values, is None exactly when some element is None (lib/Chain.v: any ?-chain / &&-chain decision tree equals one forallb, proved by induction over trees), and sets the overflow flag exactly when some element overflows. The only test of any of this (test_az) is not in the pinned run.",
+        "level_note": "Partial cells: overflowing_* and overflowing_as accumulate the flag with |= (2^n outcome combinations): all lanes at once up to 4 lanes, one free lane at a time against literal constants for 8..64 lanes. The clause 'every feature combination builds on stable and enabling a feature only adds items' is not a statement about a program's input/output behaviour and cannot be a Coq theorem; the check runs a cargo-check matrix over the feature sets as an auxiliary, non-proof leg (quick: every single feature and the vecN x {az, serde, mint, bytemuck} pairs and the full set, with std; thorough: {std, libm} x all singles, all pairs and the full set) and reports a failing combination as a violation; additivity of the public API is not checked. Trusted: Coq kernel; symx translator and symx/src/syma.rs (the abstract scalar; ToPrimitive carries the node identity through NumCast::from); Rust parametricity.",
+        "design_ref": "DESIGN.md section 7, C20",
+        "assumptions": ["each lifted scalar operation is a pure function of its operands (uninterpreted symbol); scalar-level boolean outcomes are arbitrary predicates of the operands", "feature-matrix leg: cargo check with the pinned offline registry, stable toolchain"],
+        "selfcheck": {"quick": 10, "thorough": 50},
+        "extra_without_symx": True,
+    },
+    "C18": {
+        "claimed": True,
+        "engine": "B",
+        "technique": "Coq proof by induction over operation histories on a hand-written state-machine model, tied to the code by running the extracted model against the real containers on the same histories",
+        "level_text": "The consuming iterator is modelled as a state machine over its two cursors; Coq proves by induction over ALL histories of next/next_back/len/observe/drop, for every dimension, that each element is yielded at most once or dropped at most once and never both, that yielded and live elements partition the elements (so after the drop every element was yielded or dropped exactly once), that len reports the remaining count, and that formatting/comparing/hashing reads live elements only; conversions are proved to be permutations (FromIterator with too few/many items; row/column arrays of matrices as the transposition permutation). The real containers are run with an ownership-tracking element type (not Copy, not Clone, every drop and every read logged) on every reachable (front,back) state x every operation for each of the 13 vector types (dimension 2..64), seeded random histories, 13 x 12 vector conversions, 6 x 8 matrix array conversions and the slice views, and must produce the model's event trace exactly (41850 cases quick). Unit tests pull one element and drop.",
+        "level_note": "Model + correspondence, not a translation: the theorems are about model/Containers.v; the correspondence run is differential testing of the real code against the extracted model (complete over the iterator's reachable states and operations for each type, not over all histories, which the induction covers on the model side). Memory safety itself (reads of freed memory) is observed through the tracking element type, not proved. Trusted: Coq kernel; extraction (ExtrOcamlBasic only); extract/driver_c18.ml; the harness symx/src/corr_c18.rs.",
+        "design_ref": "DESIGN.md section 7, C18",
+        "assumptions": ["the iterator's behaviour depends only on its cursor state (checked on every reachable state per type, by two different paths)", "element identity is carried by the tracking element type; reading a moved-out slot is observed as a read of a yielded identity"],
+        "trusted_extra": ["Coq extraction to OCaml of model/Containers.v (Require Import ExtrOcamlBasic only; nat stays Peano; no Extract Constant / Extract Inductive of our own) plus extract/driver_c18.ml and the harness symx/src/corr_c18.rs (ownership-tracking element type Tok)"],
+    },
     "C03": {
         "claimed": True,
         "technique": "Coq proof (computation + induction over operation sequences) over programs translated from the compiled generic code by symbolic execution",
@@ -202,5 +222,30 @@ def extra_C02(tier, seed, ROOT, SYMX, sh):
         "reduce_and/reduce_or/reduce_ne on a concrete bool/integer/float vector disagree with the extracted Coq model BoolReduce (all / any element non-zero)",
         "every vector type x {bool, i8, u16, i32, u64, Wrapping<i16>, f32, f64}: all 2^n zero/non-zero patterns up to n=10 (quick) or n=16 (thorough); for wider vectors every pattern within 2 flips of all-zero / all-non-zero plus seeded random patterns; non-zero values cycle through extremes (MIN, MAX, -1, NaN, infinities, subnormals)")
     return problems, {"traces_validated_against_impl": extra["cases"], "bool_reduce_correspondence": extra}, wit
+
+def extra_C18(tier, seed, ROOT, SYMX, sh):
+    problems, extra, wit = run_corr("c18", "Containers", tier, seed, ROOT, sh,
+        "a container of the real code produced a different ownership trace (element yielded/read/dropped/reported) than the extracted Coq model Containers for which C18_* are proved",
+        "per vector type (13, dimension 2..64): every reachable (front, back) cursor state reached by a front-first and by an alternating path x {nothing, next, next_back, len+size_hint, Debug, ==, Hash} then drop, pulls on an exhausted iterator, seeded random histories; 12 conversions per vector type incl. FromIterator with 0, 1, n-1, n, n+1, n+3 items; 8 array conversions per matrix type (6); 5 slice views per vector type compared by address")
+    extra2 = {"traces_validated_against_impl": extra["cases"], "evaluations": extra["cases"], "distinct_nontrivial": len(extra.get("input_distribution", {})),
+              "rule": extra["rule"], "container_correspondence": extra}
+    return problems, extra2, wit
+
+def extra_C20(tier, seed, ROOT, SYMX, sh):
+    """Auxiliary, non-proof leg: cargo check of the working tree over the feature matrix."""
+    import os, re
+    rc, out, dt = sh([os.path.join(ROOT, "bin", "featmatrix"), tier], timeout=7000)
+    m = re.search(r"FEATMATRIX tier=\S+ cases=(\d+) failures=(\d+)", out)
+    cases = int(m.group(1)) if m else 0; fails = int(m.group(2)) if m else -1
+    extra = {"feature_matrix": {"cases": cases, "failures": fails, "wall_s": round(dt, 1), "kind": "auxiliary build matrix (not a proof)",
+             "rule": "cargo check --lib --no-default-features --features <set> on a scratch copy of the working tree; quick: std x (each single feature, vecN x {az,serde,mint,bytemuck}, full set); thorough: {std, libm} x (singles, all pairs, full set)"}}
+    problems = []; wit = []
+    if rc != 0 or fails != 0:
+        lines = [l for l in out.split("\n") if l.startswith("FEAT-FAIL")]
+        problems.append({"kind": "feature-matrix", "what": "a cargo feature combination no longer builds on the stable toolchain", "detail": lines[:5] or [out[-800:]]})
+        for l in lines[:5]:
+            mm = re.match(r"FEAT-FAIL features=(\S+) (.*)", l)
+            if mm: wit.append({"entry": "featmatrix", "status": "differs", "input": {"features": mm.group(1)}, "expected_by_verified_model": "builds", "implementation": mm.group(2)[:300]})
+    return problems, extra, wit
 
 for _k in PROPS: PROPS[_k].setdefault("selfcheck", {"quick": 200, "thorough": 5000})
